@@ -28,6 +28,18 @@ def _cond_sig(p):
             out[t] = None
         else:
             out.setdefault(t, pol)
+    # presence facts: a lookup get_dotted_key(K, O) that succeeded on this path means K is present in O, one that
+    # failed (KeyError handled) means it is absent — the same fact a sibling method states as dotted_key_exists(K, O)
+    for e in p.events:
+        if e.kind == "call" and e.text.endswith("get_dotted_key") and len(e.args) >= 2 and not e.via:
+            t = f"call:confectioner.templating.dotted_key_exists({e.args[0].key()},{e.args[1].key()})"
+            if "Val(" in t or "valuecall" in t:
+                continue
+            pol = not e.failed
+            if t in out and out[t] is not None and out[t] != pol:
+                out[t] = None
+            else:
+                out.setdefault(t, pol)
     return out
 
 
@@ -349,6 +361,20 @@ def rule_EV(run: Run) -> RuleResult:
     res = RuleResult("R-EV")
     nec = ("an evaluation inside validate/keys/explain runs dataset bodies during inspection "
            "(e.g. Apply.validate calling self.evaluatable(options))")
+    # effects are inspected too (validate / explain of an Effect must not evaluate its callback)
+    from .interp import Ctx, analyse_method
+    for ecls in run.repo.subclasses_of("Effect"):
+        for op in ("validate", "keys", "explain"):
+            r_ = ecls.find_method(op)
+            if r_ is None or r_[0].name in ("Effect", "Validatable", "Explainable", "Cacheable", "Transformation"):
+                continue
+            bad = []
+            for p in analyse_method(Ctx(run.repo), ecls, op):
+                for e in p.events:
+                    if e.kind == "op" and e.op in ("evaluate", "transform") and isinstance(e.target, Child):
+                        bad.append(e.target.path)
+            res.add(f"{ecls.qualname}:{op}:does not evaluate its parts", not bad, r_[0].module.relpath, r_[1].lineno,
+                    "inspection only" if not bad else f"{ecls.name}.{op} evaluates {sorted(set(bad))}: the callback / effect body runs during inspection", nec)
     for cls in run.node_classes():
         res.count("classes")
         for op in ("validate", "keys", "explain"):
